@@ -34,6 +34,7 @@ from .sym import (
     SMat,
     SObj,
     SOpaque,
+    SNum,
     SReal,
     SSeq,
     SV,
@@ -307,6 +308,8 @@ class Models:
     def isinstance_one(self, I, v, t):
         if isinstance(t, TypeV):
             n = t.name
+            if n in ("float", "int") and isinstance(v, SNum):
+                return wrap(v.class_flag(n))
             if n == "float":
                 return isinstance(v, (SReal, float)) and not isinstance(v, bool)
             if n == "int":
